@@ -193,3 +193,12 @@ type ExperimentalFeature struct {
 func (e ExperimentalFeature) Error() string {
 	return fmt.Sprintf("this feature is experimental. You need the '%s' feature flag to enable it", e.FlagName)
 }
+
+type InvalidAccountName struct {
+	parser.Range
+	Name string
+}
+
+func (e InvalidAccountName) Error() string {
+	return fmt.Sprintf("Invalid account name: '%s'", e.Name)
+}
